@@ -152,6 +152,12 @@ class Builder:
         _, quant, kind, sel, conds, vars_ = q
         self.declare(vars_)
         # the selection is written first (entity(x := T(...), conditions...)), so it is built first
+        if kind in ("entity0", "setof0"):
+            # written without entity()/set_of(): an(x, conditions...) / an([x, y], conditions...)
+            built = self.term(sel) if kind == "entity0" else [self.term(s) for s in sel]
+            cs = [self.cond(c) for c in conds]
+            self.sel[q] = built
+            return {"an": an, "the": the, "infer": infer}[quant](built, *cs)
         if kind == "entity":
             built = self.term(sel)
             cs = [self.cond(c) for c in conds]
@@ -408,7 +414,11 @@ def up_decl(v):
 def up_query(q, inst, nested=False, mode="query"):
     _, quant, kind, sel, conds, vars_ = q
     cs = "".join(", " + up_cond(c, inst) for c in conds)
-    if kind == "entity":
+    if kind == "entity0":
+        d = f"{up_term(sel, inst)}{cs}"
+    elif kind == "setof0":
+        d = f"[{', '.join(up_term(s, inst) for s in sel)}]{cs}"
+    elif kind == "entity":
         d = f"entity({up_term(sel, inst)}{cs})"
     else:
         d = f"set_of([{', '.join(up_term(s, inst) for s in sel)}]{cs})"
